@@ -798,7 +798,7 @@ pub fn run_c07_c08(prop: &str) {
     let timeouts: Vec<u64> = if thorough { vec![60, 0, 1_000_000_000] } else { vec![60, 0] };
     let depth: usize = std::env::var("VERIF_DEPTH").ok().and_then(|v| v.parse().ok()).unwrap_or(if thorough { 4 } else { 3 });
     let depth = if with_c08 { depth - 1 } else { depth };
-    let budget_wall = if thorough { 1500.0 } else { 40.0 };
+    let budget_wall = mc::budget(thorough, 40.0, 1.0);
     let start = clock::wall();
     let mut found: Vec<(Violation, String)> = vec![];
 
@@ -1316,7 +1316,7 @@ pub fn run_c16() {
         vec![IpOp::SeedFull, IpOp::Seed(9, 5), IpOp::Insert(0, 1, 2)],
         vec![IpOp::SeedFull, IpOp::Seed(8, 5), IpOp::Insert(0, 1, 2)],
     ];
-    let budget = if thorough { 1500.0 } else { 40.0 };
+    let budget = mc::budget(thorough, 40.0, 1.0);
     let start = clock::wall();
     let mut states = 0;
     let mut trans = 0;
